@@ -115,6 +115,11 @@ def c14(tier, seed):
     runs = ds_plan(tier, seed, ["hazard"], ["HP_SCAN_SNAPSHOT", "H100", "HP_PUBLISH_PRE", "HP_RELEASED"], ([2, 4, 8], [2, 3, 4, 8, 16]), ops=4000)
     # the MPMC FIFO is the structure built on it: "no structure built on it dereferences a reclaimed node"
     runs += ds_plan(tier, seed + 17, ["mpmc"], ["HP_SCAN_SNAPSHOT", "HP_PUBLISH_PRE", "HP_RELEASED"], ([8], [4, 16]), rounds_q=30, rounds_t=300)
+    # focused publish/validate race (store-load fence): one writer, one reader, one slot, one pointer per record -> the
+    # writer scans at every 4th retirement; raw mode, no harness delays, real store-buffer behaviour
+    q = tier == "quick"
+    for i in range(4 if q else 12):
+        runs.append(ds("mon", "hazard", seed + 31, 400 + i, 2, mode="nohook", hist=0, hpk=1, slots=1, tight=1, rounds=60 if q else 400, ops=60000))
     return dict(runs=runs,
                 rule="a case = one round: seeded split into writers (unlink from 8 shared slots + hazard_pointer_free) and readers (publish, "
                 "re-validate, hold 1..K validated protections, release), K fixed per process (1..4), late-joining records, shuffled node "
@@ -153,13 +158,17 @@ def c17(tier, seed):
 
 
 def fb(binary, variant, sub, seed, k, threads, mode="jitter", timeout=400, **kw):
-    # 8M context switches without a single completed client operation = livelock (logical steps, not time)
-    args = dict(sub=sub, seed=S(seed, k), threads=threads, mode=mode, livelock_hits=8000000)
+    # 10^8 context switches without a single completed client operation = livelock (logical steps, not time; 8*10^6 was
+    # reached by yield-polling fibers while a stalled kernel thread was descheduled on the oversubscribed machine)
+    args = dict(sub=sub, seed=S(seed, k), threads=threads, mode=mode, livelock_hits=100000000)
     args.update(kw)
     return Run(variant, BINARIES[binary], args, cpu=min(threads, 8), timeout=timeout, tag=sub)
 
 
 RT_STALLS = ["WAIT_MPSC_PRE_PUSH", "MPSC_MID", "SWITCH_PRE", "SWITCH_POST", "SCHEDULED", "MAINT_PUBLISH"]
+MUTEX_STALLS = RT_STALLS + ["MUTEX_UNLOCK_MID"]
+COND_STALLS = RT_STALLS + ["COND_SIGNAL_MID", "MUTEX_UNLOCK_MID"]
+RW_STALLS = RT_STALLS + ["RW_HANDOFF"]
 
 
 def fb_plan(tier, seed, binary, sub, stalls, trials_q, trials_t, threads_q=(1, 2, 4, 16), threads_t=(1, 2, 3, 4, 8, 16), extra=None,
@@ -201,7 +210,7 @@ TRIAL_RULE = ("a case = one trial: a fresh primitive and a seeded population of 
 
 
 def c03(tier, seed):
-    return dict(runs=fb_plan(tier, seed, "h_sync", "mutex", RT_STALLS, 24, 150, tsan=True),
+    return dict(runs=fb_plan(tier, seed, "h_sync", "mutex", MUTEX_STALLS, 24, 150, tsan=True),
                 rule=TRIAL_RULE + "Oracles: occupancy counter (atomic) must be 0 on entry, plain payload pair pa==pb and section count (TSan judges payload "
                 "races), trylock never context-switches, mutex counter back to 1, stranded locker at logical quiescence. distinct_nontrivial = distinct "
                 "acquisition-order hashes among trials with at least one contended hand-off.",
@@ -210,7 +219,7 @@ def c03(tier, seed):
 
 
 def c05(tier, seed):
-    return dict(runs=fb_plan(tier, seed, "h_sync", "cond", RT_STALLS, 30, 200),
+    return dict(runs=fb_plan(tier, seed, "h_sync", "cond", COND_STALLS, 30, 200),
                 rule=TRIAL_RULE + "Credit ledger under the user mutex: signal while a waiter is registered gives one credit, broadcast one per registered "
                 "waiter; every return from fiber_cond_wait must own the mutex and consume a credit; at the end credits==0 and nobody is blocked "
                 "(quiescence => lost signal). No predicate loops. distinct_nontrivial = distinct (waiters, signallers, waits, mode, window-hit) tuples.",
@@ -219,7 +228,7 @@ def c05(tier, seed):
 
 
 def c06(tier, seed):
-    return dict(runs=fb_plan(tier, seed, "h_sync", "sem", ["MAINT_PUBLISH", "MPMC_PUSH_MID", "WAIT_MPMC", "SWITCH_PRE", "SWITCH_POST", "SCHEDULED"], 24, 150),
+    return dict(runs=fb_plan(tier, seed, "h_sync", "sem", ["MAINT_PUBLISH", "MPMC_PUSH_MID", "WAIT_MPMC", "SWITCH_PRE", "SWITCH_POST", "SCHEDULED", "SEM_POST_MID"], 24, 150),
                 rule=TRIAL_RULE + "Initial values {0,1,2,7}; holder pattern (occupancy <= initial) or producer/consumer. Oracles: successes <= initial + posts "
                 "begun at every success, trywait never context-switches, final value == initial + posts - successes, stranded waiter at quiescence.",
                 min_events={"sem_wait_returned": 100, "sem_trywait_fail": 1, "sem_posts": 100},
@@ -227,7 +236,7 @@ def c06(tier, seed):
 
 
 def c07(tier, seed):
-    return dict(runs=fb_plan(tier, seed, "h_sync", "rwlock", RT_STALLS, 24, 150),
+    return dict(runs=fb_plan(tier, seed, "h_sync", "rwlock", RW_STALLS, 24, 150),
                 rule=TRIAL_RULE + "Oracles: writer alone (atomic occupancy of readers/writers on entry and exit), shared data unchanged during a read "
                 "section, try variants never context-switch, state word 0 at the end, stranded waiter at quiescence.",
                 min_events={"rw_read_sections_shared_with_other_readers": 10, "rw_write_sections": 50, "rw_trywr_fail": 1, "lib_wake_mpsc_spin_count": 1},
@@ -235,7 +244,7 @@ def c07(tier, seed):
 
 
 def c12(tier, seed):
-    return dict(runs=fb_plan(tier, seed, "h_sync", "barrier", ["WAIT_MPSC_PRE_PUSH", "MPSC_MID", "SWITCH_PRE", "SCHEDULED"], 14, 80),
+    return dict(runs=fb_plan(tier, seed, "h_sync", "barrier", ["WAIT_MPSC_PRE_PUSH", "MPSC_MID", "SWITCH_PRE", "SCHEDULED", "BARRIER_LAST"], 14, 80),
                 rule=TRIAL_RULE + "Counts {1,2,3,4,7,16,64}, up to 300 back-to-back rounds by the same fibers. Oracles: on return from wait #k exactly "
                 "'count' fibers have entered round k, one serial fiber per round, everybody returns (quiescence).",
                 min_events={"barrier_rounds": 500},
@@ -276,7 +285,8 @@ def c10(tier, seed):
 
 
 ALL_RT_STALLS = ["SWITCH_PRE", "SWITCH_POST", "MAINT_PUBLISH", "SCHEDULED", "WAIT_MPSC_PRE_PUSH", "MPSC_MID", "SIGNAL_WAIT_REGISTERED",
-                 "SLEEP_REGISTERED", "FD_WAIT_REGISTERED", "WAIT_MPMC", "SET_AND_WAIT", "STEAL", "SAVING_SKIP"]
+                 "SLEEP_REGISTERED", "FD_WAIT_REGISTERED", "WAIT_MPMC", "SET_AND_WAIT", "STEAL", "SAVING_SKIP", "JOIN_CLAIMED", "COMPLETION_CLAIMED",
+                 "MUTEX_UNLOCK_MID", "COND_SIGNAL_MID"]
 
 
 def c01(tier, seed):
@@ -369,7 +379,7 @@ def c09(tier, seed):
 
 def c04(tier, seed):
     q = tier == "quick"
-    runs = fb_plan(tier, seed, "h_join", "join", ["MAINT_PUBLISH", "SCHEDULED", "SET_AND_WAIT", "SWITCH_PRE", "SWITCH_POST", "STEAL"], 40, 300,
+    runs = fb_plan(tier, seed, "h_join", "join", ["MAINT_PUBLISH", "SCHEDULED", "SET_AND_WAIT", "SWITCH_PRE", "SWITCH_POST", "STEAL", "JOIN_CLAIMED", "COMPLETION_CLAIMED"], 40, 300,
                    extra=dict(livelock_prop="C04", drivers=8), stall_every=3)
     k = 900
     for sc in range(8):
